@@ -279,6 +279,8 @@ class State:
         s.nserial = self.nserial
         s.done = self.done
         s.flags = dict(self.flags)
+        if "$since" in s.flags:
+            s.flags["$since"] = set(s.flags["$since"])
         return s
 
     # ---- cells / tape ----------------------------------------------------------------------
@@ -461,6 +463,8 @@ class Machine:
         self.type_fields_cache = {}
         self.violations = []
         self.vcount = {}
+        self.vcfg = {}  # violation key -> set of tuples of options that were on
+        self.veof = {}  # violation key -> {True, False}: seen on paths with / without an observed end of input
         self.stats = {"steps": 0, "forks": 0}
         self.obl = {}  # obligation kind -> [checked, discharged]
         self._bytes_fields = None
@@ -481,6 +485,10 @@ class Machine:
         key = (rule, detail)
         n = self.vcount.get(key, 0)
         self.vcount[key] = n + 1
+        self.veof.setdefault(key, set()).add(bool(st.flags.get("eof_seen")))
+        cf = self.vcfg.setdefault(key, set())
+        if len(cf) < 256:
+            cf.add(tuple(sorted(k[4:] for k, val in st.env.items() if k.startswith("cfg:") and val)))
         if n < 3:
             self.violations.append({"rule": rule, "detail": detail, "where": self.where(st), "stack": self.stack(st), "path": self.describe_path(st)})
         if fatal:
